@@ -288,6 +288,20 @@ func init() {
 						want = append(want, l)
 					}
 				}
+				for _, l := range lines {
+					r := mustNetRule(l, 0)
+					if re, status, _ := rules.VerifRegexp(r); status == 1 {
+						target := q.URL
+						if rules.VerifShouldMatchHostname(r, q) {
+							target = q.Hostname
+						}
+						if re.MatchString(target) != r.Match(q) {
+							c.Run.Violate(ev.Violation{Pred: "accepted-url-contains-shortcut", Sig: map[string]any{"rule": l, "url": q.URL, "hostname_request": q.IsHostnameRequest},
+								What:   fmt.Sprintf("rule %q (shortcut %q), request %s (hostname request: %v): the compiled pattern accepts %q = %v, Match = %v", l, r.Shortcut, q.URL, q.IsHostnameRequest, target, re.MatchString(target), r.Match(q)),
+								Replay: map[string]any{"rule": l, "class": "index"}})
+						}
+					}
+				}
 				got := sortedSet(netTexts(ne.MatchAll(q)))
 				if !eqStrings(got, sortedSet(want)) {
 					c.Run.Violate(ev.Violation{Pred: "shortcut-index-finds-what-matches", Sig: map[string]any{"lines": lines, "url": q.URL, "hostname_request": q.IsHostnameRequest},
